@@ -32,6 +32,7 @@ UNITS = {
     "ffilter": [()],
     "hindex": [()],
     "specparse": [TF],
+    "errchan": [()],
 }
 
 # property -> list of (unit, features)
@@ -50,7 +51,7 @@ PROP_UNITS = {
     "C16": [("naming", ()), ("listing", ()), ("state", ()), ("builder", ()), ("handle", ()), ("flw", ()), ("multi", ()), ("primary", ()), ("lh", TF), ("symlink", ()), ("ffilter", ())],
     "C17": [("specparse", TF)],
     "C18": [("state", ()), ("handle", ()), ("builder", ()), ("lh", TF)],
-    "C19": [("state", ()), ("logger", TF), ("multi", ()), ("timestamps", ()), ("swrite", ()), ("lbuild", ()), ("symlink", ())],
+    "C19": [("state", ()), ("logger", TF), ("multi", ()), ("timestamps", ()), ("swrite", ()), ("lbuild", ()), ("symlink", ()), ("errchan", ())],
     "C20": [("swrite", ()), ("stdw", ("async",)), ("handle_async", ("async",)), ("dnow", ()), ("lbuild", ()), ("builder", ()), ("flw", ()), ("primary", ()), ("multi", ()), ("logger", TF)],
 }
 
